@@ -462,6 +462,25 @@ func verifHosts(l *roundRobinLoadBalancer) []*Host { return l.hosts.Load().([]*H
 //@   ensures err != nil ==> closed(c.closed)
 //@   modifies c.err, closed(c.closed)
 
+// C17 / C01: the reader goroutine. It ends only after an error was recorded - which closed the socket
+// and the channel (checkErr) - and then tells the receiver exactly once that the connection is closing:
+// a connection whose peer sent something undecodable is closed, and its pending requests are released.
+//@ iface proxycore.Receiver.Receive
+//@   modifies *
+//@ iface proxycore.Receiver.Closing
+//@   modifies *
+
+//@ loop proxycore.Conn.read #1 [C17, C01]
+//@   invariant $rdClosing == 0 && (done ==> closed(c.closed))
+
+//@ func proxycore.Conn.read [C17, C01]
+//@   local $rdClosing int = 0
+//@   local $rdClosedFirst bool = false
+//@   requires c != nil
+//@   before proxycore.Receiver.Closing#* set $rdClosing = $rdClosing + 1; $rdClosedFirst = closed(c.closed)
+//@   ensures closed-then-notified-once: $rdClosing == 1 && $rdClosedFirst
+//@   modifies *
+
 //@ func proxycore.Conn.Err [C18]
 //@   requires c != nil
 //@   modifies nothing
